@@ -11,11 +11,13 @@ OwnEv(e) ==
   ELSE IF e.raised THEN "C08.consume"
   ELSE IF e.remaining # e.tail THEN "C08.consume"
   ELSE IF e.reemitted # e.emitted THEN "C08.fixpoint"
+  ELSE IF ~BodyWF(k.tag, k.body) THEN "C08.wellformed"       \* what PGPy emits is a well-formed packet of its tag
   ELSE "ok"
 \* a foreign packet e.f (well-formed per its header) that PGPy accepted: o1 = first re-serialisation, o2 = second
 ForeignEv(e) ==
   LET kf == PacketAt(e.f \o e.tail, 1) IN
   IF ~kf.ok \/ (kf.next # Len(e.f) + 1 /\ ~kf.indet) THEN "harness.foreign-header"
+  ELSE IF e.wellformed /\ ~BodyWF(kf.tag, kf.body) THEN "harness.spec-rejects-wellformed-packet"   \* fixtures validate the body grammar
   ELSE IF ~e.accepted THEN "ok"
   ELSE LET k1 == PacketAt(e.o1, 1) IN
     IF ~k1.ok \/ k1.next # Len(e.o1) + 1 THEN "C08.hdrlen"
